@@ -39,6 +39,7 @@ StepAction(e) ==
     [] e.op = "addsymbols" -> AddSymbols(e.r)
     [] e.op = "addconstants" -> AddConstants(e.r)
     [] e.op = "rebind" -> Rebind(e.r, e.r2, e.str, e.bypass)
+    [] e.op = "convert" -> Convert(e.r, e.str, e.r2, e.str2, e.how)
     [] e.op = "binop" -> BinOp(e.fn, e.r, e.str, e.r2, e.str2, e.warm)
 
 (* ------------------------------- T ------------------------------- *)
@@ -66,7 +67,7 @@ Creation(e) == e.op \in {"new", "lutalias", "lutcopy", "json", "deepcopy", "unpi
 \* groups of registries NOT independently created: only lut= (the caller handed over the same dict)
 PGrp(e) == IF Creation(e) /\ e.obs.k = "new" THEN [pgrp EXCEPT ![e.obs.r] = IF e.op = "lutalias" THEN pgrp[e.r] ELSE e.obs.r] ELSE pgrp
 PRoute(e) == IF Creation(e) /\ e.obs.k = "new" THEN [proute EXCEPT ![e.obs.r] = e.op] ELSE proute
-PMayChange(e) == IF e.op \in {"binop", "rebind", "new"} \/ (e.r = 0 /\ e.op \in {"modify", "remove"}) THEN {}
+PMayChange(e) == IF e.op \in {"binop", "rebind", "convert", "new"} \/ (e.r = 0 /\ e.op \in {"modify", "remove"}) THEN {}
                  ELSE {pgrp[e.r]}
 \* C13_Frame on the observation: which registries resolve something else than before the call
 Victims(e) == {r \in RegIds : Prev.live[r + 1] /\ e.live[r + 1] /\ pgrp[r] \notin PMayChange(e) /\ e.dig[r + 1] # Prev.dig[r + 1]}
@@ -85,6 +86,7 @@ Fail(e, clause, victim, cls) ==
                  actor |-> proute[e.r], victim |-> victim, cls |-> cls]))
 Detail(e) == CASE e.op = "binop" -> e.fn
                [] e.op = "rebind" -> IF e.bypass THEN "bypass_validation" ELSE "validated"
+               [] e.op = "convert" -> e.how
                [] e.op \in {"unitcopy"} -> IF e.deep THEN "deep" ELSE "shallow"
                [] OTHER -> ""
 PReport(e) ==
